@@ -25,6 +25,8 @@ DEFAULT_NET = {
     "refuse_ports": [],        # connection attempts to these ports are refused
     "blackhole_ports": [],     # connection attempts to these ports never complete
     "shutdown_enotconn": True,  # shutdown() after RST raises ENOTCONN (Linux)
+    "recv_cost": 0.0,          # virtual seconds a successful recv() costs its caller (models the CPU time of taking a
+                               # segment off the socket; 0 = computation is free, so a flooding peer can never outpace a timer)
     "pipe_capacity": None,     # flow control: max bytes written but not yet read by the receiving application
                                # (send buffer + receive window); None = unlimited.  When full, send() blocks
                                # (TimeoutError after the socket timeout, BlockingIOError when non-blocking)
@@ -438,6 +440,9 @@ class SimSocket:
         pipe.consumed += k
         if net.cfg.get("pipe_capacity") is not None:
             sim.wake(pipe.space)
+        if net.cfg.get("recv_cost") and self.label is None:
+            # only sockets of the system under test pay (the scripted peer's sockets carry a label)
+            sim.block(None, net.cfg["recv_cost"])
         return out
 
     def shutdown(self, how):
